@@ -84,8 +84,8 @@ pub fn case_line(op: &str, inputs: &[String], r: &Reply) -> String {
 }
 
 /// Run `f`, mapping a panic to `Err(message)`.
-pub fn guarded<T>(f: impl FnOnce() -> T + std::panic::UnwindSafe) -> Result<T, String> {
-    std::panic::catch_unwind(f).map_err(|e| {
+pub fn guarded<T>(f: impl FnOnce() -> T) -> Result<T, String> {
+    std::panic::catch_unwind(std::panic::AssertUnwindSafe(f)).map_err(|e| {
         if let Some(s) = e.downcast_ref::<&str>() {
             (*s).to_string()
         } else if let Some(s) = e.downcast_ref::<String>() {
